@@ -58,7 +58,7 @@ PROPS = {
         "assumptions": ["spec documents nested at most 8 levels deep (the model's fuel)", "key matching in encoding/json is case-insensitive: generated documents use the exact key names"],
     },
     "C18": {
-        "topics": ["leak"],
+        "topics": ["leak", "trk"],
         "nontrivial": lambda c, i: "c18" in c or (c.startswith("(desc") and len(c) > 30),
         "rule": "Describe masking through the real Describe on the shipped specs for 600 (thorough 12000) PAN / PIN-block values of every length 0..24; 400 (thorough 8000) generated "
                 "message specs, each with a high-entropy 12-19 character secret: set correct and with one corrupted character, packed, JSON-encoded, spliced into valid wire "
@@ -95,7 +95,7 @@ PROPS = {
         "assumptions": ["ids 0 (MTI) and 1 (bitmap) are bookkeeping: observers are compared on data elements >= 2"],
     },
     "C15": {
-        "topics": ["hist", "msg", "fld"],
+        "topics": ["hist", "msg", "fld", "trk"],
         "nontrivial": lambda c, i: "pack" in c and "ok x" in i,
         "rule": HIST_RULE + "; plus the histories of C01; each message is encoded (Pack, JSON, Describe) repeatedly, cloned, the clone and the original are mutated in turn, "
                 "the population prefix is replayed in reverse order, primitive values are handed over as slices with 20 sentinel bytes of spare capacity; non-trivial = distinct history that packs",
@@ -103,7 +103,7 @@ PROPS = {
         "assumptions": ["messages whose MTI was never set pack without one and cannot be cloned: outside the property"],
     },
     "C01": {
-        "topics": ["fld", "msg"],
+        "topics": ["fld", "msg", "trk"],
         "nontrivial": lambda c, i: "(set" in c and "| ok x" in i.replace("ok | ", "| "),
         "rule": FLD_MSG_RULE + "; non-trivial = distinct history that populates a field or message and packs it successfully",
         "trusted_base": MODEL_TB,
@@ -125,7 +125,7 @@ PROPS = {
         "assumptions": ["coherent specs as in DESIGN.md section 2"],
     },
     "C04": {
-        "topics": ["adv", "fld", "msg", "enc", "pref"],
+        "topics": ["adv", "fld", "msg", "enc", "pref", "trk"],
         "nontrivial": lambda c, i: ("unpack" in c or ".dec" in c),
         "rule": FLD_MSG_RULE + "; plus the decoder-level adversarial cases of C06/C07 (BER long forms with 0..127 length bytes, lengths >= 2^31 and >= 2^63, "
                 "negative lengths, every short prefix string); every implementation run is a child process under ulimit -v and a timeout; non-trivial = distinct decode case",
@@ -150,7 +150,7 @@ PROPS = {
         "assumptions": ["tag sets on which the sort function is a strict total order (DESIGN.md section 2.3)"],
     },
     "C10": {
-        "topics": ["fld", "msg", "hist"],
+        "topics": ["fld", "msg", "hist", "trk"],
         "nontrivial": lambda c, i: c.count("(unpack") >= 1 and ("(set" in c or c.count("(unpack") >= 2),
         "rule": FLD_MSG_RULE + "; the oracle replays the history before the last unpack on one object and compares value, re-pack and JSON with a fresh object; "
                 "non-trivial = distinct history with prior state followed by an unpack",
